@@ -22,3 +22,4 @@ import TFV.Properties.Src.SelfCGAProba
 #print axioms TFV.SrcTie.C14_src_pdpga_adapt_first
 #print axioms TFV.Properties.Src.SelfCGAProba.C14_src_get_new_proba
 #print axioms TFV.Properties.Src.SelfCGAProba.C14_src_get_new_proba_rejects
+#print axioms TFV.Properties.Src.SelfCGAProba.C14_src_choice_operators
